@@ -31,6 +31,7 @@
 import Atomman.Prelude
 import Atomman.Dvect
 import Atomman.Generated.NlistStorage
+import Atomman.Generated.NlistSource
 
 namespace Atomman.C03
 
@@ -257,6 +258,13 @@ def dist2 (S : Sys) (u v : Nat) : Rat := dmag2 S.vects S.px S.py S.pz (S.posOf u
 def accept (S : Sys) (c2 : Rat) (uv : Nat × Nat) : Bool :=
   decide (dist2 S uv.1 uv.2 < c2) && (uv.1 != uv.2)
 
+/-- `for u in range(len(shortlist)): for v in range(u + 1, len(longlist))` written with the indices of the source:
+    `(shortlist[u], longlist[v])`, `longlist = shortlist ++ rest`, first `v` = `Src.vStart u`
+    (`pairsOf_eq_loops`, Proofs/C03_Source.lean: this is `pairsOf`). -/
+def pairLoops (short rest : List Nat) : List (Nat × Nat) :=
+  (List.range short.length).flatMap fun u =>
+    ((short ++ rest).drop (Src.vStart u)).map fun x => (short.getD u 0, x)
+
 /-! ### 7a. insertion, rows as growing lists -/
 
 abbrev Rows := List (List Nat)
@@ -364,6 +372,32 @@ def nlistA (junk : Nat → Nat → Nat) (init delta : Nat) (S : Sys) (cutoff : R
     the growth constants `P`, per-atom rows with `initialsize`/`deltasize`). -/
 def nlistFull (P : BinParams) (junk : Nat → Nat → Nat) (init delta : Nat) (S : Sys) (cutoff : Rat) : ArrState :=
   runA junk init delta S (cutoff * cutoff) (candsA P S cutoff)
+
+/-! ### call forms: a storage size given by the caller or left out -/
+
+/-- how `initialsize` / `deltasize` reach `nlist`: given by the caller (handed on unchanged by `NeighborList.__init__`,
+    `build`, `System.neighborlist`), left out in a call through `NeighborList(system=, cutoff=)` /
+    `System.neighborlist(cutoff=)` (the default of `build` is handed on), or left out in a direct call
+    `nlist(system, cutoff)` (its own default).  The defaults are the ones standing in the source of the run. -/
+inductive SizeArg where
+  | given (n : Nat)
+  | viaBuild
+  | viaNlist
+deriving DecidableEq, Repr
+
+def initialsizeOf : SizeArg → Nat
+  | .given n => n
+  | .viaBuild => Src.buildDefInitialsize
+  | .viaNlist => Src.defInitialsize
+
+def deltasizeOf : SizeArg → Nat
+  | .given n => n
+  | .viaBuild => Src.buildDefDeltasize
+  | .viaNlist => Src.defDeltasize
+
+/-- the array behind the `NeighborList` a call returns, whatever way the two sizes were (not) given. -/
+def nlistCall (junk : Nat → Nat → Nat) (a b : SizeArg) (S : Sys) (cutoff : Rat) : ArrState :=
+  nlistFull srcBinParams junk (initialsizeOf a) (deltasizeOf b) S cutoff
 
 /-! ### object level: a `System` that is modified between `neighborlist` calls -/
 
